@@ -150,8 +150,9 @@ prop(
     "Worlds with an exit sequence of 0-3 keys drawn from note keys, action keys (incl. panic) and unmapped keys; histories of up to 40 "
     "alternating events biased (60%) to the sequence keys so that completions in every order, partial holds and early releases are frequent. "
     "Oracle: no signal before the first step at which all sequence keys are down; at that press exactly one signal, zero MIDI messages and "
-    "State() unchanged; empty sequence: never a signal; the history ends with a disconnect and nothing may stay sounding. Nothing is asserted "
-    "about presses after the first completion. Non-trivial = sequence of >= 2 keys completed by a key other than the last configured one, "
+    "State() unchanged - the first time and every later time a press of a sequence key makes the sequence completely held; a signal while the "
+    "sequence is not completely held is spurious, also after a completion; empty sequence: never a signal; the history ends with a disconnect and "
+    "nothing may stay sounding. Left open: presses of OTHER keys while the whole sequence stays held. Non-trivial = sequence of >= 2 keys completed by a key other than the last configured one, "
     "a sequence key that is also a note/action key, or a near miss (a sequence key released before completion).",
     [dict(test="TestC14", shards=16, checks_quick=8000, checks_thorough=60000)],
     level_text="Generated-history search against a direct statement of the exit-sequence rule (held-set oracle).",
@@ -173,7 +174,8 @@ prop(
     "or pitch bend; deadzone from {0,.002,.05,.1,.25,.49,.5,.9,.95,.999,1.0} or k/1000, given as specific entry, per-handler default or absent; flip; "
     "deadzone_at_center (also on signed axes, where it changes nothing); channel offsets; default channel. Positions: EVERY raw value ascending (and descending) for ranges up to "
     "1024 values, otherwise both ends, centre, deadzone edges (each +-3) plus 32-256 sampled values ascending; then 0-40 arbitrary (previous, new) "
-    "pairs. Oracle per event on the receiver's last value: within one step of the exact rational value (pitch bend: of the map anchored at "
+    "pairs; in 1/8 of the cases a second event node with the SAME name reports its own range for the axis and is heard after the first (2-40 positions "
+    "of its own range). Oracle per event on the receiver's last value: within one step of the exact rational value (pitch bend: of the map anchored at "
     "0/8192/16383 or of the linear map), monotonic in raw, physical end stops exactly 0/127/16383, inside the deadzone exactly the rest value "
     "(0, 63|64, 8192), only the axis' own controllers addressed, something transmitted once the position differs from rest. "
     "Non-trivial = the case contains an end stop, a position inside/at the deadzone, or a pair crossing the deadzone edge.",
@@ -209,7 +211,10 @@ prop(
     "note+12*octave+semitone on the current channel when configured and in range; < 49%: off; band: unchanged; out-of-range at crossing: a later "
     "Note On of the same excursion is permitted, not required), every Note Off releases exactly the Note On that was sent, never both "
     "directions sounding, a direction without a note never sounds, velocity 1-127. Positions within 1e-9 of a threshold are resynchronised from "
-    "the wire, except exactly half travel on an axis without deadzone (the float chain is exact there): it has to sound. "
+    "the wire, except exactly half travel on an axis without deadzone (the float chain is exact there): it has to sound. A quarter of the cases "
+    "have 1-2 further mappings with the same shaping but other notes / a direction more or less / other channel offsets, and mapping_up / "
+    "mapping_down taps between the positions: the Note Off still has to release what was sent (a mapping change itself may release it; a direction "
+    "that gets its note only through the change may sound it later in the excursion). "
     "Non-trivial = a direction switched on; distinct by case hash.",
     [dict(test="TestC08", shards=16, checks_quick=10000, checks_thorough=60000)],
     level_text="Generated-history search against a reference state machine of the two directions.",
@@ -223,7 +228,8 @@ prop(
     "Corner configurations written as TOML text and sent through the real ParseData: default channel, velocity, key offsets, analog offsets, "
     "CC numbers and notes each drawn mostly at/inside their valid range (edges favoured) and 1 time in 16 just outside; whatever the parser "
     "accepts is run (rejections are counted, they are C10's business) with 1-30 steps: panic taps, bursts of up to 16 channel_up/down taps "
-    "(every channel is reached), note taps, octave taps, CC-learning, and axis events at both end stops, the centre, random in-range raws, within "
+    "(every channel is reached), note taps, taps (single or 2-16 in a row) of EVERY other action in the code's own table config.SupportedActions - "
+    "also on action axes - so that an action added later is exercised without the harness knowing it, and axis events at both end stops, the centre, random in-range raws, within "
     "3 raw units of every deadzone edge, and walks of single raw steps across a deadzone edge coming from outside, on "
     "cc / bidirectional cc / pitch_bend / key / action axes (ranges 0..255, -128..127, -32768..32767, -1..1, 0..1023, 0..65535, -127..127, 0..4, "
     "1..255; centred or not; default deadzone 0-0.95, own deadzone per axis in 1/4). Oracle: byte-level monitor on every emitted "
@@ -244,10 +250,14 @@ prop(
     "with 1-3 mutations (delete/duplicate/swap line, retype value, rename key, truncate at a byte, drop an inline field, [x]<->[[x]], insert, "
     "corrupt a byte); thorough tier adds native coverage-guided fuzzing (go test -fuzz) seeded with factory files and known hostile inputs. "
     "Oracle: the call returns a value or an error; a panic (recovered, with its site) or no return within 10 s is a violation. "
+    "TestC09Reload: 1-4 such contents as the .toml files of a hidi-config tree, loaded with LoadDeviceConfigs and loaded again 1-3 times (nothing "
+    "changed, one file rewritten with another content, or saved again with the same bytes): no load panics or hangs and the same bytes on disk give "
+    "the same report - the n-th read of a file is as total as the first. "
     "Non-trivial = the TOML decoder accepted the document, so HIDI's own conversion code ran (accepted, or rejected by HIDI's validation); "
     "distinct by input hash (fuzzing: inputs kept for new coverage).",
     [
         dict(test="TestC09", shards=16, checks_quick=40000, checks_thorough=600000),
+        dict(test="TestC09Reload", shards=16, checks_quick=1500, checks_thorough=20000),
         dict(test="TestC09Hidi", bin="hidi", shards_quick=4, shards_thorough=16, checks_quick=20000, checks_thorough=100000),
         dict(test="FuzzC09", fuzz=True, tiers=["thorough"], fuzztime="420s", shards=1, replay_test="TestC09", timeout_thorough=1800),
     ],
@@ -296,7 +306,8 @@ prop(
     "fails TOML, valid TOML that fails validation, unknown field, empty, binary, a decoder-crashing document, a valid higher-precedence-looking "
     "config without .toml suffix / with .toml.bak etc., nested directories, a directory named x.toml, a dangling symlink, .TOML upper case "
     "(only with unusable content); candidate files and nested directories under odd names (blanks, Cyrillic, Latin-1 bytes that are not UTF-8, a "
-    "leading dot, 170 characters); valid configs of other devices; one of the four directories missing in 1/5 of the cases. Oracle: no panic; "
+    "leading dot, 170 characters); in a quarter of the cases the user's file for the exact identifier is called like the factory default file "
+    "(a name decides nothing, the identifier inside does); valid configs of other devices; one of the four directories missing in 1/5 of the cases. Oracle: no panic; "
     "all directories present -> no error and FindConfig returns the file the precedence list names (checked by tag, type and file name) or an "
     "error when none applies; unsupported types -> UnsupportedDeviceType; missing directory -> an error or that directory treated as empty. "
     "In 2/5 of the cases every candidate is saved again in place (same length; the served one possibly invalid now) and everything is loaded "
@@ -315,7 +326,8 @@ prop(
 prop(
     "C19", "exploration",
     "A temporary tree with the four directories and pre-created files (a.toml, device.toml, notes.txt, a.toml.bak, a.toml~, mytoml, x.tom, toml, "
-    "atoml, README, hidden / blank-containing / multi-dot / Cyrillic / Latin-1 names); 1-8 operations: a single in-place write (open without truncation, one write(2)), a burst of 1-20 writes across "
+    "atoml, README, hidden / blank-containing / multi-dot / Cyrillic / Latin-1 names, files in sub-directories incl. hidden, blank-containing, "
+    "non-UTF-8 and file-like (backup.toml/) directory names); 1-8 operations: a single in-place write (open without truncation, one write(2)), a burst of 1-20 writes across "
     "directories/files, a series of 64-4096 (+-2) modifications alternating between two .toml files while the consumer is busy, a flood beyond "
     "the kernel's event queue, a nested directory removed and created again under the same path with a write to a file in it, or a pause; the consumer reads promptly or 1-200 ms late; then cancel while idle, with a notification pending unread, or "
     "in the middle of a burst. Count-based oracle that is sound under any timing: total notifications <= in-place writes to *.toml files "
@@ -461,7 +473,9 @@ prop(
     "traffic flows; then the manager's DespawnOutput. Oracles: (1) no data-race report whose stack is in HIDI code (race log parsed after every "
     "case); (2) ProcessEvents returns within 3 s of the end of its stream (15 s guard with goroutine dump); (3) within 3 s after all devices "
     "ended no goroutine of the device package is alive; (4) each device's MIDI output equals the output of the same history run alone "
-    "(exact sequence; disconnect clean-up compared as a multiset because its order is a map walk). TestC16Paused: the timing in which the whole "
+    "(exact sequence; disconnect clean-up compared as a multiset because its order is a map walk); (5) in half of the cases whose server lists no "
+    "controller for the devices, device 0 stays connected for 3 s (its LED goroutine has given up and returned by then) and the MIDI input must still "
+    "be flowing before its stream ends (progress-based: stalled = not one message taken over by the fan-out in 6 s). TestC16Paused: the timing in which the whole "
     "PROCESS stands still - right after the devices are attached (0-400 ms) the test process stops itself (SIGSTOP; a helper continues it after "
     "5.2-6.5 s, longer than the LED loop's budget for connecting); afterwards the process must be alive, the devices end on the end of their "
     "streams and leave no goroutine. TestC16Stall: a server that stops reading, in a private network namespace with 4 KB TCP buffers. Non-trivial = a device whose stream ended "
